@@ -1,4 +1,202 @@
-import I2N.Model.Tunnel
+import I2N.Lemmas.TunnelEnds
+/-!
+# C19 — Tunnel end point parameters mirror each other
+
+Model: `I2N/Model/Tunnel.lean` (`peerVariant` = `_get_peer_variant`, `tunnelParams` = `VMTunnel.__init__`,
+`Tunnel.leftParams`/`rightParams` = the `object_params` projections, `Tunnel.connects` = `connects_nodes`).
+`t.L s` / `t.R s` is what the left / right end point finds under the parameter name `s`.
+
+All theorems quantify over arbitrary tunnel and node names, node parameters, interfaces, addresses and
+configuration dictionaries; `WF` asks that tunnel name and the two node names are pairwise distinct and that the
+nodes' own parameters do not overwrite generated ones (`Clean`).
+-/
 namespace I2N.Props.C19
-theorem placeholder : True := trivial
+open I2N.Tunnel
+
+variable {name : String} {node1 node2 : Node} {local1 remote1 peer1 : SDict} {auth : Option SDict} {t : Tunnel}
+
+/-- **The lan parameters of each side are that side's network** (`left_net` / `right_net` of the tunnel object),
+and absent exactly when the side is a point (`internetip`, `externalip`, `modeconfig`). -/
+theorem lan_is_own_net (h : tunnelParams name node1 node2 local1 remote1 peer1 auth = .ok t)
+    (wf : WF name node1 node2) :
+    t.L "vpnconn_lan_net" = t.leftNet.map (·.netIp) ∧ t.L "vpnconn_lan_netmask" = t.leftNet.map (·.netmask) ∧
+    t.R "vpnconn_lan_net" = t.rightNet.map (·.netIp) ∧ t.R "vpnconn_lan_netmask" = t.rightNet.map (·.netmask) := by
+  obtain ⟨b⟩ := tunnelParams_ok h
+  have h12 := wf.h12
+  have h21 := Ne.symm wf.h12
+  obtain ⟨extra, e2, hx⟩ := remotePart_assign b.h2
+  have hx1 := fun q => extra_none hx "vpnconn_lan_net" q (by decide)
+  have hx2 := fun q => extra_none hx "vpnconn_lan_netmask" q (by decide)
+  rw [b.L_eq wf _ (mem_gen _ (by simp [netStems])), b.L_eq wf _ (mem_gen _ (by simp [netStems])),
+    b.R_eq wf _ (mem_gen _ (by simp [netStems])), b.R_eq wf _ (mem_gen _ (by simp [netStems]))]
+  simp only [net_all b _ _ (by simp [netStems] : "vpnconn_lan_net" ∈ netStems),
+    net_all b _ _ (by simp [netStems] : "vpnconn_lan_netmask" ∈ netStems), e2, lastVal_append, hx1, hx2]
+  rcases localPart_assign b.h1 with ⟨_, e1⟩ | ⟨_, e1⟩ <;> rw [e1] <;>
+    cases t.leftNet <;> cases t.rightNet <;>
+    simp [lanOf, remoteOf, lastVal, lastVal_append, k2, h12, h21]
+
+/-- **The left side's remote network is the right side's network**, for the whole type product. -/
+theorem left_remote_is_right_net (h : tunnelParams name node1 node2 local1 remote1 peer1 auth = .ok t)
+    (wf : WF name node1 node2) :
+    t.L "vpnconn_remote_net" = t.rightNet.map (·.netIp) ∧
+    t.L "vpnconn_remote_netmask" = t.rightNet.map (·.netmask) := by
+  obtain ⟨b⟩ := tunnelParams_ok h
+  have h12 := wf.h12
+  have h21 := Ne.symm wf.h12
+  obtain ⟨extra, e2, hx⟩ := remotePart_assign b.h2
+  have hx1 := fun q => extra_none hx "vpnconn_remote_net" q (by decide)
+  have hx2 := fun q => extra_none hx "vpnconn_remote_netmask" q (by decide)
+  rw [b.L_eq wf _ (mem_gen _ (by simp [netStems])), b.L_eq wf _ (mem_gen _ (by simp [netStems]))]
+  simp only [net_all b _ _ (by simp [netStems] : "vpnconn_remote_net" ∈ netStems),
+    net_all b _ _ (by simp [netStems] : "vpnconn_remote_netmask" ∈ netStems), e2, lastVal_append, hx1, hx2]
+  rcases localPart_assign b.h1 with ⟨_, e1⟩ | ⟨_, e1⟩ <;> rw [e1] <;>
+    cases t.leftNet <;> cases t.rightNet <;>
+    simp [lanOf, remoteOf, lastVal, lastVal_append, k2, h12, h21]
+
+/-- The right side's remote network is the left side's network **unless the left local type is `custom`**
+(finding `custom-local-right-remote-net-missing`, see `custom_local_right_remote_absent`). -/
+theorem right_remote_is_left_net_partial (h : tunnelParams name node1 node2 local1 remote1 peer1 auth = .ok t)
+    (wf : WF name node1 node2) (hl : local1.get? "type" ≠ some "custom") :
+    t.R "vpnconn_remote_net" = t.leftNet.map (·.netIp) ∧
+    t.R "vpnconn_remote_netmask" = t.leftNet.map (·.netmask) := by
+  obtain ⟨b⟩ := tunnelParams_ok h
+  have h12 := wf.h12
+  have h21 := Ne.symm wf.h12
+  obtain ⟨extra, e2, hx⟩ := remotePart_assign b.h2
+  have hx1 := fun q => extra_none hx "vpnconn_remote_net" q (by decide)
+  have hx2 := fun q => extra_none hx "vpnconn_remote_netmask" q (by decide)
+  rw [b.R_eq wf _ (mem_gen _ (by simp [netStems])), b.R_eq wf _ (mem_gen _ (by simp [netStems]))]
+  simp only [net_all b _ _ (by simp [netStems] : "vpnconn_remote_net" ∈ netStems),
+    net_all b _ _ (by simp [netStems] : "vpnconn_remote_netmask" ∈ netStems), e2, lastVal_append, hx1, hx2]
+  rcases localPart_assign b.h1 with ⟨hc, _⟩ | ⟨_, e1⟩
+  · exact absurd hc hl
+  · rw [e1]
+    cases t.leftNet <;> cases t.rightNet <;>
+      simp [lanOf, remoteOf, lastVal, lastVal_append, k2, h12, h21]
+
+/-- `lan_remote_mirror`, the half that holds for the whole product: whatever the right side has as its local
+network is what the left side has as its remote network (both defined or both absent). -/
+theorem lan_remote_mirror_right_to_left (h : tunnelParams name node1 node2 local1 remote1 peer1 auth = .ok t)
+    (wf : WF name node1 node2) :
+    t.R "vpnconn_lan_net" = t.L "vpnconn_remote_net" ∧ t.R "vpnconn_lan_netmask" = t.L "vpnconn_remote_netmask" := by
+  obtain ⟨_, _, h3, h4⟩ := lan_is_own_net h wf
+  obtain ⟨h5, h6⟩ := left_remote_is_right_net h wf
+  exact ⟨h3.trans h5.symm, h4.trans h6.symm⟩
+
+/-- `lan_remote_mirror`: each side's local network is the other side's remote network.  PARTIAL: the
+left-to-right half needs `local type ≠ custom`; for `custom` the real constructor never assigns
+`vpnconn_remote_net_<tunnel>_<right node>` (next theorem). -/
+theorem lan_remote_mirror_partial (h : tunnelParams name node1 node2 local1 remote1 peer1 auth = .ok t)
+    (wf : WF name node1 node2) (hl : local1.get? "type" ≠ some "custom") :
+    t.L "vpnconn_lan_net" = t.R "vpnconn_remote_net" ∧ t.L "vpnconn_lan_netmask" = t.R "vpnconn_remote_netmask" ∧
+    t.R "vpnconn_lan_net" = t.L "vpnconn_remote_net" ∧ t.R "vpnconn_lan_netmask" = t.L "vpnconn_remote_netmask" := by
+  obtain ⟨h1, h2, _, _⟩ := lan_is_own_net h wf
+  obtain ⟨h5, h6⟩ := right_remote_is_left_net_partial h wf hl
+  obtain ⟨h7, h8⟩ := lan_remote_mirror_right_to_left h wf
+  exact ⟨h1.trans h5.symm, h2.trans h6.symm, h7, h8⟩
+
+/-- The finding, as a theorem about the model of the code as it is: for **every** tunnel with left local type
+`custom` the left end has its `lnet/lmask` as lan network while the right end has no remote network at all. -/
+theorem custom_local_right_remote_absent (h : tunnelParams name node1 node2 local1 remote1 peer1 auth = .ok t)
+    (wf : WF name node1 node2) (hl : local1.get? "type" = some "custom") :
+    t.L "vpnconn_lan_net" = local1.get? "lnet" ∧ (t.L "vpnconn_lan_net").isSome ∧
+    t.R "vpnconn_remote_net" = none ∧ t.R "vpnconn_remote_netmask" = none := by
+  obtain ⟨b⟩ := tunnelParams_ok h
+  have h12 := wf.h12
+  have h21 := Ne.symm wf.h12
+  obtain ⟨extra, e2, hx⟩ := remotePart_assign b.h2
+  have hx1 := fun q => extra_none hx "vpnconn_remote_net" q (by decide)
+  have hx2 := fun q => extra_none hx "vpnconn_remote_netmask" q (by decide)
+  have hx3 := fun q => extra_none hx "vpnconn_lan_net" q (by decide)
+  obtain ⟨lt, hlt, hc⟩ := localPart_ok b.h1
+  rw [hl] at hlt
+  cases hlt
+  rcases hc with ⟨hc, _⟩ | ⟨hc, _⟩ | ⟨_, lnet, lmask, hn, hm, hnc, e1⟩
+  · exact absurd hc (by decide)
+  · exact absurd hc (by decide)
+  · rw [b.L_eq wf _ (mem_gen _ (by simp [netStems])), b.R_eq wf _ (mem_gen _ (by simp [netStems])),
+      b.R_eq wf _ (mem_gen _ (by simp [netStems]))]
+    simp only [net_all b _ _ (by simp [netStems] : "vpnconn_remote_net" ∈ netStems),
+      net_all b _ _ (by simp [netStems] : "vpnconn_lan_net" ∈ netStems),
+      net_all b _ _ (by simp [netStems] : "vpnconn_remote_netmask" ∈ netStems), e2, lastVal_append, hx1, hx2, hx3,
+      e1, hn]
+    cases t.rightNet <;> simp [lanOf, remoteOf, lastVal, k2, h12, h21]
+
+/-- **Peer addresses point at each other**: the right end's peer address is the address of the left end point
+interface, the left end's peer address (fixed-address peer) is the address of the right end point interface, a road
+warrior peer (`dynip`) has no fixed address and is waited for passively; both end point interfaces are looked up
+through the *same* nic role. -/
+theorem peers_point_at_each_other (h : tunnelParams name node1 node2 local1 remote1 peer1 auth = .ok t)
+    (wf : WF name node1 node2) :
+    t.R "vpnconn_peer_ip" = some t.leftIface.ip ∧ t.R "vpnconn_activation" = some "ALWAYS" ∧
+    (peer1.get? "type" = some "ip" →
+      t.L "vpnconn_peer_ip" = some t.rightIface.ip ∧ t.L "vpnconn_activation" = some "ALWAYS") ∧
+    (peer1.get? "type" = some "dynip" →
+      t.L "vpnconn_peer_ip" = none ∧ t.L "vpnconn_activation" = some "PASSIVE") ∧
+    (peer1.get? "type" = some "ip" ∨ peer1.get? "type" = some "dynip") ∧
+    node1.iface (peer1.getD "nic" "internet_nic") = .ok t.leftIface ∧
+    node2.iface (peer1.getD "nic" "internet_nic") = .ok t.rightIface := by
+  obtain ⟨b⟩ := tunnelParams_ok h
+  have h12 := wf.h12
+  have h21 := Ne.symm wf.h12
+  obtain ⟨pt, pt2, hpt, _, hi2, hi1, hc⟩ := peerPart_ok b.h3
+  -- the right peer dictionary carries the nic role of the left one
+  have hrole : b.peer2.getD "nic" "internet_nic" = peer1.getD "nic" "internet_nic" := by
+    obtain ⟨_, _, pt', _, _, hpt', _, _, hp⟩ := peerVariant_ok b.hv
+    rw [hpt] at hpt'; cases hpt'
+    rcases hp with ⟨_, nic, hnic, e⟩ | ⟨hn1, hn2, _⟩
+    · rw [e]; simp [SDict.getD, SDict.get?, hnic]
+    · rcases hc with ⟨rfl, _⟩ | ⟨rfl, _⟩
+      · exact absurd rfl hn2
+      · exact absurd rfl hn1
+  rw [hrole] at hi1
+  rw [b.R_eq wf _ (mem_gen _ (by simp [peerStems])), b.R_eq wf _ (mem_gen _ (by simp [peerStems])),
+    b.L_eq wf _ (mem_gen _ (by simp [peerStems])), b.L_eq wf _ (mem_gen _ (by simp [peerStems]))]
+  simp only [peer_all b _ _ (by simp [peerStems] : "vpnconn_peer_ip" ∈ peerStems),
+    peer_all b _ _ (by simp [peerStems] : "vpnconn_activation" ∈ peerStems)]
+  rcases hc with ⟨rfl, e⟩ | ⟨rfl, e⟩ <;> rw [e] <;>
+    simp [lastVal, k2, h12, h21, hpt, hi1, hi2]
+
+/-- **Pre-shared-key identities are swapped**: with `psk` authentication both ends get the same secret, the left
+end's own identity is the right end's foreign identity and vice versa (values and identity types). -/
+theorem psk_ids_swapped (h : tunnelParams name node1 node2 local1 remote1 peer1 auth = .ok t)
+    (wf : WF name node1 node2) (a : SDict) (ha : auth = some a) (hpsk : a.get? "type" = some "psk") :
+    t.L "vpnconn_key_type" = some "PSK" ∧ t.R "vpnconn_key_type" = some "PSK" ∧
+    t.L "vpnconn_psk" = a.get? "psk" ∧ t.R "vpnconn_psk" = a.get? "psk" ∧ (a.get? "psk").isSome ∧
+    t.L "vpnconn_psk_own_id" = a.get? "left_id" ∧ t.R "vpnconn_psk_foreign_id" = a.get? "left_id" ∧
+    t.L "vpnconn_psk_foreign_id" = a.get? "right_id" ∧ t.R "vpnconn_psk_own_id" = a.get? "right_id" ∧
+    (a.get? "left_id").isSome ∧ (a.get? "right_id").isSome ∧
+    t.L "vpnconn_psk_own_id_type" = t.R "vpnconn_psk_foreign_id_type" ∧
+    t.L "vpnconn_psk_foreign_id_type" = t.R "vpnconn_psk_own_id_type" ∧
+    t.L "vpnconn_psk_own_id_type" = (a.get? "left_id").map (fun i => if i = "" then "IP" else "CUSTOM") ∧
+    t.L "vpnconn_psk_foreign_id_type" = (a.get? "right_id").map (fun i => if i = "" then "IP" else "CUSTOM") := by
+  obtain ⟨b⟩ := tunnelParams_ok h
+  have h12 := wf.h12
+  have h21 := Ne.symm wf.h12
+  rcases authPart_ok b.h4 with ⟨hn, _⟩ | ⟨d, ty, hd, hty, hc⟩
+  · rw [ha] at hn; cases hn
+  · rw [ha] at hd; cases hd
+    rw [hpsk] at hty; cases hty
+    rcases hc with ⟨hc, _⟩ | ⟨_, psk, l, r, hp, hl, hr, e⟩
+    · exact absurd hc (by decide)
+    · simp only [b.L_eq wf _ (mem_gen _ (by simp [authStems] : "vpnconn_key_type" ∈ mainStems ∨ _)),
+        b.R_eq wf _ (mem_gen _ (by simp [authStems] : "vpnconn_key_type" ∈ mainStems ∨ _)),
+        b.L_eq wf _ (mem_gen _ (by simp [authStems] : "vpnconn_psk" ∈ mainStems ∨ _)),
+        b.R_eq wf _ (mem_gen _ (by simp [authStems] : "vpnconn_psk" ∈ mainStems ∨ _)),
+        b.L_eq wf _ (mem_gen _ (by simp [authStems] : "vpnconn_psk_own_id" ∈ mainStems ∨ _)),
+        b.R_eq wf _ (mem_gen _ (by simp [authStems] : "vpnconn_psk_own_id" ∈ mainStems ∨ _)),
+        b.L_eq wf _ (mem_gen _ (by simp [authStems] : "vpnconn_psk_foreign_id" ∈ mainStems ∨ _)),
+        b.R_eq wf _ (mem_gen _ (by simp [authStems] : "vpnconn_psk_foreign_id" ∈ mainStems ∨ _)),
+        b.L_eq wf _ (mem_gen _ (by simp [authStems] : "vpnconn_psk_own_id_type" ∈ mainStems ∨ _)),
+        b.R_eq wf _ (mem_gen _ (by simp [authStems] : "vpnconn_psk_own_id_type" ∈ mainStems ∨ _)),
+        b.L_eq wf _ (mem_gen _ (by simp [authStems] : "vpnconn_psk_foreign_id_type" ∈ mainStems ∨ _)),
+        b.R_eq wf _ (mem_gen _ (by simp [authStems] : "vpnconn_psk_foreign_id_type" ∈ mainStems ∨ _)),
+        auth_all b _ _ (by simp [authStems] : "vpnconn_key_type" ∈ authStems),
+        auth_all b _ _ (by simp [authStems] : "vpnconn_psk" ∈ authStems),
+        auth_all b _ _ (by simp [authStems] : "vpnconn_psk_own_id" ∈ authStems),
+        auth_all b _ _ (by simp [authStems] : "vpnconn_psk_foreign_id" ∈ authStems),
+        auth_all b _ _ (by simp [authStems] : "vpnconn_psk_own_id_type" ∈ authStems),
+        auth_all b _ _ (by simp [authStems] : "vpnconn_psk_foreign_id_type" ∈ authStems), e, hp, hl, hr]
+      simp [lastVal, k1, k2, h12, h21]
+
 end I2N.Props.C19
